@@ -257,12 +257,20 @@ func (ic *inferContext) inferRelTypesFromPremise(premises []ast.Term, state *inf
 		varRanges := nextState.asMap()
 		if leftVar, ok := t.Left.(ast.Variable); ok {
 			tpe := boundOfArg(t.Right, varRanges, bc.nameTrie)
+			if _, isApply := t.Right.(ast.ApplyFn); isApply && tpe.Equals(symbols.EmptyType) {
+				// An ill-typed function application does not filter at run
+				// time, so this alternative cannot be dropped.
+				return nil, illTypedApplication{fmt.Errorf("%v is ill-typed for %v", t.Right, varRanges)}
+			}
 			if err := nextState.addOrRefine(leftVar, tpe); err != nil {
 				return nil, err
 			}
 		}
 		if rightVar, ok := t.Right.(ast.Variable); ok {
 			tpe := boundOfArg(t.Left, varRanges, bc.nameTrie)
+			if _, isApply := t.Left.(ast.ApplyFn); isApply && tpe.Equals(symbols.EmptyType) {
+				return nil, illTypedApplication{fmt.Errorf("%v is ill-typed for %v", t.Left, varRanges)}
+			}
 			if err := nextState.addOrRefine(rightVar, tpe); err != nil {
 				return nil, err
 			}
@@ -276,6 +284,10 @@ func (ic *inferContext) inferRelTypesFromPremise(premises []ast.Term, state *inf
 	}
 	return nil, fmt.Errorf("unexpected state %v", premise)
 }
+
+// illTypedApplication is an error that makes the whole clause ill-typed, not
+// only the alternative in which it occurs.
+type illTypedApplication struct{ error }
 
 // inferRelTypesFromClause infers possible relation types for the head predicate of a single clause.
 func (ic *inferContext) inferRelTypesFromClause() (ast.BaseTerm, error) {
@@ -316,6 +328,9 @@ func (ic *inferContext) inferRelTypesFromClause() (ast.BaseTerm, error) {
 		for _, state := range levels[i] {
 			nextStates, err := ic.inferRelTypesFromPremise(clause.Premises, state)
 			if err != nil {
+				if _, fatal := err.(illTypedApplication); fatal {
+					return nil, err
+				}
 				continue
 			}
 			levels[i+1] = append(levels[i+1], nextStates...)
